@@ -456,10 +456,13 @@ pub fn run(tier: Tier) -> i32 {
     // goes on to bound 2, configuration by configuration, until a wall-clock budget is used up
     let budget_s: f64 = std::env::var("VERIF_C01_BUDGET_S").ok().and_then(|s| s.parse().ok()).unwrap_or(2400.0);
     let started = std::time::Instant::now();
-    let pass = |k: usize, with_faults: bool, budget: Option<f64>| -> Vec<Option<(u64, usize, Vec<Violation>, Option<u64>)>> {
+    let pass = |k: usize, with_faults: bool, budget: Option<f64>, only_two_nodes: bool| -> Vec<Option<(u64, usize, Vec<Violation>, Option<u64>)>> {
         cfgs.par_iter()
             .enumerate()
             .map(|(ci, c)| {
+                if only_two_nodes && c.topo.ports.len() > 2 {
+                    return None;
+                }
                 if let Some(b) = budget {
                     if started.elapsed().as_secs_f64() > b {
                         return None;
@@ -515,11 +518,17 @@ pub fn run(tier: Tier) -> i32 {
             })
             .collect()
     };
-    let mut results: Vec<(u64, usize, Vec<Violation>, Option<u64>)> = pass(1, true, None).into_iter().flatten().collect();
+    let mut results: Vec<(u64, usize, Vec<Violation>, Option<u64>)> = pass(1, true, None, false).into_iter().flatten().collect();
     let mut k = 1;
     let mut bound2_done = 0usize;
+    if tier == Tier::Quick {
+        // quick: bound 2 on the two-node topologies (no budget: the same set on every run)
+        let r2 = pass(2, false, None, true);
+        bound2_done = r2.iter().filter(|r| r.is_some()).count();
+        results.extend(r2.into_iter().flatten());
+    }
     if tier == Tier::Thorough {
-        let r2 = pass(2, false, Some(budget_s));
+        let r2 = pass(2, false, Some(budget_s), false);
         bound2_done = r2.iter().filter(|r| r.is_some()).count();
         if bound2_done == cfgs.len() {
             k = 2;
